@@ -49,6 +49,7 @@ def thunks(db):
 
 META_EXTRA = "SRC (copying an inplace_function never relocates its const source); VT (vtable value vs storage content); instantiation witnesses for pair's converting members; PARAM."
 META = (META[0] + " " + META_EXTRA, META[1])
+META = (META[0] + " SIB; INITFORM (make_from_tuple); LIFE / L5 over inplace_function's members.", META[1])
 
 
 def run(chk, tier):
